@@ -64,6 +64,8 @@ fn dispatch(op: &str, a: &[&str]) -> Option<String> {
         "findfree" => crate::ops5::findfree_op(a),
         "ppforeign" => crate::ops5::ppforeign_op(a),
         "giant" => crate::ops5::giant_op(a),
+        "pairimp" => crate::ops5::pairimp_op(a),
+        "findimp" => crate::ops5::findimp_op(a),
         "find" => crate::ops3::find_op(a),
         "fnew" => crate::ops3::fnew_op(a),
         "rfind" => crate::ops3::rfind_op(a),
